@@ -169,8 +169,8 @@ def explore(ctx):
             text2, spec2, t2 = c.text, c.spec, c.doc_type
             extra_cls = []
             if tr == 'keys':
-                if c.doc is None:
-                    continue
+                if c.doc is None or getattr(c, 'shared', False) or '*' in c.text or '&' in c.text:
+                    continue        # reordering could put an alias before its anchor
                 text2 = G.render(shuffle_class_maps(rng, c.spec, c.doc, c.doc_type))
             elif tr == 'style':
                 if c.node is None or getattr(c, 'shared', False) or getattr(c, 'empty', False):
